@@ -13,13 +13,13 @@ header lemmas) are reused as they are.
 * `parse_block_elab`, `parse_block_print`, `parse_block_reject`, `fuel_of_tokens`.
 -/
 namespace Pory.P1b
-open Pory Pory.Parser Pory.C02P Pory.C10b Pory.SwitchParse Pory.TopParse Pory.BoolGen Pory.CmdGen
+open Pory Pory.Parser Pory.C02P Pory.C10b Pory.SwitchParse Pory.TopParse Pory.BoolGen Pory.CmdGen Pory.LeafGen
 open Pory.TextValueParse (printCmdI printArgI printMoreI IElem)
 open Pory.C14b (swVal)
 open Pory.C10c (add_assoc nil_add add_nil)
 open Pory.C11b (operandName badPosMsg autoFinish epv_auto Form autoLeafT leftSideMsg leaf_auto leaf_auto_not
   leafFinish leafFinishNot autoFinish_ok autoFinish_bad PosOK leaf_of_cmd_bad leaf_reject leaf_reject_not
-  NotLeafStart)
+  NotLeafStart autoE)
 open Pory.StmtG (breakOutsideErr continueOutsideErr continueNotLastErr duplicateCaseErr secondDefaultErr
   emptySwitchErr notAutoVarErr badPosErr autoPosBad notLeafErr noSwitchesErr undefinedSwitchErr noPoryCaseErr
   caseValue caseTok operandOf caseValTok operandTok Ctx ctxOf
@@ -109,6 +109,34 @@ theorem cleaf_shape : LeafShape CLeaf.print CLeaf.wf := by
     | neg p l =>
       exact ⟨tkp p .NOT l, c.name, tl ++ (Form.post (.neg p l) ++ x :: xtl),
         by simp [CLeaf.print, Form.pre, hpr], by simp, by simp [hname]⟩
+  | kw l =>
+    obtain ⟨nt, kw, lp, o, ops, rp, post⟩ := l
+    have hl : (KLeaf.mk nt kw lp o ops rp post).ok = true := hwf
+    simp only [KLeaf.ok, Bool.and_eq_true, beq_iff_eq, Bool.or_eq_true] at hl
+    obtain ⟨⟨⟨⟨⟨hnt, hkw⟩, hlp⟩, -⟩, -⟩, -⟩ := hl
+    have hk1 : kw.type ≠ .LPAREN := by rcases hkw with (h | h) | h <;> rw [h] <;> decide
+    have hk2 : kw.type ≠ .NOT := by rcases hkw with (h | h) | h <;> rw [h] <;> decide
+    cases nt with
+    | some t =>
+      have ht : t.type = .NOT := by simpa using hnt
+      exact ⟨t, kw, lp :: o :: (ops ++ rp :: (KLeaf.postToks post ++ rest)),
+        by simp [CLeaf.print, KLeaf.print], by simp [ht], fun _ => hk1⟩
+    | none =>
+      exact ⟨kw, lp, o :: (ops ++ rp :: (KLeaf.postToks post ++ rest)),
+        by simp [CLeaf.print, KLeaf.print], hk1, fun h => absurd h hk2⟩
+  | autoV c opTok v =>
+    have hok : c.ok = true := by
+      have : (c.ok && isCmpTT opTok.type && v.ok) = true := hwf
+      simp only [Bool.and_eq_true] at this
+      exact this.1.1
+    have hname := CmdF.name_ident hok
+    obtain ⟨tl, hpr⟩ := c.print_head
+    have h2 : ∃ b btl, tl ++ (opTok :: v.print ++ rest) = b :: btl := by
+      cases tl with
+      | cons b btl => exact ⟨b, _, rfl⟩
+      | nil => exact ⟨_, _, rfl⟩
+    obtain ⟨b, btl, hb⟩ := h2
+    exact ⟨c.name, b, btl, by simp [CLeaf.print, hpr, ← hb], by simp [hname], by simp [hname]⟩
 
 theorem node_args_length (σ : String → String) (cid : Nat) (c : CmdF) :
     (c.node σ cid).args.length = c.nargs := by
@@ -180,6 +208,60 @@ theorem cleaf_run (env : Env) (sn : String) :
           have := leaf_of_cmd' env sn f s (bump s) pre c.name c.last _ rest av fm cmd m hname hav hc
             (by rw [hlen]; exact autoPosBad_none hbad)
             (by cases fm <;> first | exact hfo | trivial) (by omega)
+          rw [this]
+          rfl
+  | kw l =>
+    have := kleaf_run env sn f s pre l rest hwf hfo hf
+    simp only [CLeaf.print, CLeaf.res]
+    rw [this]
+    rfl
+  | autoV c opTok v =>
+    have hw3 : (c.ok && isCmpTT opTok.type && v.ok) = true := hwf
+    simp only [Bool.and_eq_true] at hw3
+    obtain ⟨⟨hok, hop⟩, hv⟩ := hw3
+    have hname := CmdF.name_ident hok
+    obtain ⟨tl, hpr⟩ := c.print_head
+    simp only [CLeaf.need] at hf
+    have hw : pre :: (CLeaf.print (.autoV c opTok v) ++ rest) =
+        pre :: c.name :: (tl ++ (opTok :: (v.print ++ rest))) := by
+      simp [CLeaf.print, hpr]
+    rw [hw]
+    simp only [CLeaf.res]
+    cases hav : env.autoVars.lookup c.name.lit with
+    | none =>
+      have hx : NotLeafStart env c.name := ⟨by simp [hname], by simp [hname], by simp [hname], fun _ => hav⟩
+      exact leaf_reject env sn f s pre c.name _ (by simp [hname]) hx
+    | some av =>
+      have hrest : ∀ n, c = .bare n → ((opTok :: (v.print ++ rest)).headD s.eof).type ≠ .LPAREN := by
+        intro n _
+        simp only [List.headD_cons]
+        intro h
+        rw [h] at hop
+        exact absurd hop (by decide)
+      have hc := cmdF_run env sn s c (opTok :: (v.print ++ rest)) hok hrest f (by omega)
+      rw [hpr] at hc
+      simp only [List.cons_append] at hc
+      cases hel : c.elabC env sn (substC s.constants) s.nextCmdId with
+      | error e =>
+        rw [hel] at hc
+        exact leaf_of_cmd_err env sn f s pre c.name _ av .bare e hname hav hc
+      | ok r =>
+        obtain ⟨cmd, m⟩ := r
+        rw [hel] at hc
+        have hcmd := elabC_ok hel
+        have hlen : cmd.args.length = c.nargs := by rw [hcmd]; exact node_args_length _ _ c
+        simp only
+        cases hbad : autoPosBad av c.nargs with
+        | some pos =>
+          obtain ⟨hp, hb2⟩ := autoPosBad_some hbad
+          have := leaf_of_cmd_bad env sn f s (bump s) pre c.name c.last _ _ av .bare cmd m pos hname hav hc hp
+            (by rw [hlen]; exact hb2)
+          simp only [Form.pre, List.nil_append] at this
+          rw [this, hlen]
+          rfl
+        | none =>
+          have := leaf_of_cmd_val env sn f s (bump s) pre c.name c.last _ rest av opTok v cmd m hname hav hc
+            (by rw [hlen]; exact autoPosBad_none hbad) hop hv hfo (by omega)
           rw [this]
           rfl
 
